@@ -203,7 +203,11 @@ fn pair_case(ctx: &Ctx, ch: &mut Ch) -> Outcome {
         ctx.class("generator: gave up");
         return Ok(());
     };
-    let (b_s, how): (S, &str) = match ch.pick(4) {
+    let (b_s, how): (S, &str) = match ch.pick(5) {
+        4 => match mutate::swap_variable(&a.s, ch) {
+            Some(m) => (m, "one variable replaced by another in scope"),
+            None => (a.s.clone(), "identical copy"),
+        },
         0 => {
             let mut r = a.s.clone();
             for _ in 0..1 + ch.pick(3) {
@@ -292,12 +296,159 @@ fn pair_case(ctx: &Ctx, ch: &mut Ch) -> Outcome {
     Ok(())
 }
 
+/// Exhaustive small family: under `(x : int) => (y : int) => (b : bool) => (f : int -> int -> int) =>`,
+/// every pair of bodies `a OP b` / `c OP d`, `- a` / `- c`, `if b then a else c` / `if b then d else e`,
+/// `f a b` / `f c d` with operands from {x, y, 1, 2}: unify must agree with NbE on each pair.
+fn operand_pairs(ctx: &Ctx) {
+    let atoms = ["x", "y", "1", "2"];
+    let prefix = "(x : int) => (y : int) => (b : bool) => (f : int -> int -> int) => ";
+    let mut bodies: Vec<String> = vec![];
+    for op in ["+", "-", "*", "/", "<", "<=", "==", ">", ">="] {
+        for a in atoms {
+            for c in atoms {
+                bodies.push(format!("{a} {op} {c}"));
+            }
+        }
+    }
+    for a in atoms {
+        bodies.push(format!("- {a}"));
+        for c in atoms {
+            bodies.push(format!("if b then {a} else {c}"));
+            bodies.push(format!("f {a} {c}"));
+        }
+    }
+    let mut idx = 0u64;
+    let mut total = 0u64;
+    for (i, a) in bodies.iter().enumerate() {
+        for (j, b) in bodies.iter().enumerate() {
+            // Same former only (different formers are covered by the generated pairs).
+            let key = |s: &String| s.split(' ').nth(if s.starts_with("if") || s.starts_with("f ") || s.starts_with('-') { 0 } else { 1 }).unwrap_or("").to_owned();
+            if key(a) != key(b) {
+                continue;
+            }
+            idx += 1;
+            if idx % u64::from(ctx.nshards) != u64::from(ctx.shard) {
+                continue;
+            }
+            let _ = (i, j);
+            let (ta, tb) = (format!("{prefix}{a}"), format!("{prefix}{b}"));
+            let input = format!("{ta}   VS   {tb}");
+            total += 1;
+            let r = pipe::with_two_accepted(&ta, &tb, |ea, eb| -> Result<bool, Failure> {
+                let mut names = Names::default();
+                let (Ok(ka), Ok(kb)) = (core::from_gram(ea, &mut vec![], &mut names), core::from_gram(eb, &mut vec![], &mut names)) else {
+                    return Err(Failure::new("an elaborated term is not well scoped", input.clone()));
+                };
+                let mut nbe = Nbe::new(100_000);
+                let want = nbe.eval(&ka, &None).and_then(|va| nbe.eval(&kb, &None).and_then(|vb| nbe.conv(&va, &vb))).map_err(|_| Failure::new("reference out of fuel on a tiny term", input.clone()))?;
+                let (ab, ba) = catch(|| (unify(ea, eb, &mut vec![]), unify(eb, ea, &mut vec![]))).map_err(|p| Failure::new(format!("unify panicked: {p}"), input.clone()).with_sig("panic"))?;
+                if ab != want || ba != want {
+                    return Err(Failure::new(format!("unify(a, b) = {ab}, unify(b, a) = {ba}, but the normal forms are {}", if want { "equal" } else { "different" }), input.clone()));
+                }
+                Ok(want)
+            });
+            match r {
+                Err(p) => ctx.settle(Err(Failure::new(p, input).with_sig("panic"))),
+                Ok(None) => {}
+                Ok(Some(Err(f))) => {
+                    ctx.settle(Err(f));
+                    if ctx.peek_violations() >= 6 {
+                        return;
+                    }
+                }
+                Ok(Some(Ok(_))) => ctx.nontrivial_enumerated(|| input.clone()),
+            }
+        }
+    }
+    ctx.evaluated(total);
+    ctx.exhaustive("operand-pairs");
+    ctx.note("operand-pairs: every pair of same-former bodies over operands {x, y, 1, 2} under four binders");
+}
+
+/// Near-miss pairs: a definition group and the same group with one more definition (or one
+/// definition changed), both ending in their last definition — structurally almost the same term.
+fn group_pair_case(ctx: &Ctx, ch: &mut Ch) -> Outcome {
+    let n = 1 + ch.pick(4);
+    let mut defs: Vec<String> = vec![];
+    let mut names: Vec<String> = vec![];
+    for i in 0..n {
+        let name = format!("d{i}");
+        let rhs = match ch.pick(4) {
+            0 => ch.pick(5).to_string(),
+            1 if !names.is_empty() => format!("{} + {}", names[ch.pick(names.len())], ch.pick(3)),
+            2 if !names.is_empty() => names[ch.pick(names.len())].clone(),
+            _ => format!("{} * 2", ch.pick(4)),
+        };
+        defs.push(format!("{name} : int = {rhs}"));
+        names.push(name);
+    }
+    let wrap = |body: String, ch_kind: usize| match ch_kind {
+        0 => body,
+        1 => format!("(p : int -> type) => p ({body})"),
+        2 => format!("(q : int) => q + ({body})"),
+        _ => format!("((k : int) => k) ({body})"),
+    };
+    let kind = ch.pick(4);
+    let a = format!("{}; {}", defs.join("; "), names.last().unwrap());
+    let extra = match ch.pick(3) {
+        0 => ch.pick(5).to_string(),
+        1 => format!("{} + 1", names[ch.pick(names.len())]),
+        _ => names[ch.pick(names.len())].clone(),
+    };
+    let b = match ch.pick(3) {
+        // One more definition, which becomes the result.
+        0 => format!("{}; d{n} : int = {extra}; d{n}", defs.join("; ")),
+        // One more, unused, definition.
+        1 => format!("{}; d{n} : int = {extra}; {}", defs.join("; "), names.last().unwrap()),
+        // The last definition changed.
+        _ => {
+            let mut d2 = defs.clone();
+            *d2.last_mut().unwrap() = format!("d{} : int = {extra}", n - 1);
+            format!("{}; {}", d2.join("; "), names.last().unwrap())
+        }
+    };
+    let (ta, tb) = (wrap(a, kind), wrap(b, kind));
+    let input = format!("{ta}   VS   {tb}");
+    let r = pipe::with_two_accepted(&ta, &tb, |ea, eb| -> Result<Option<bool>, Failure> {
+        let mut names = Names::default();
+        let (Ok(ka), Ok(kb)) = (core::from_gram(ea, &mut vec![], &mut names), core::from_gram(eb, &mut vec![], &mut names)) else {
+            return Err(Failure::new("an elaborated term is not well scoped", input.clone()));
+        };
+        let mut nbe = Nbe::new(100_000);
+        let want = (|| {
+            let va = nbe.eval(&ka, &None).ok()?;
+            let vb = nbe.eval(&kb, &None).ok()?;
+            nbe.conv(&va, &vb).ok()
+        })();
+        let Some(want) = want else { return Ok(None) };
+        let (ab, ba) = catch(|| (unify(ea, eb, &mut vec![]), unify(eb, ea, &mut vec![]))).map_err(|p| Failure::new(format!("unify panicked: {p}"), input.clone()).with_sig("panic"))?;
+        if ab != ba {
+            return Err(Failure::new(format!("unify is not symmetric on hole-free terms: unify(a, b) = {ab}, unify(b, a) = {ba}"), input.clone()));
+        }
+        if ab != want {
+            return Err(Failure::new(format!("unify(a, b) = {ab}, but the normal forms are {}", if want { "equal" } else { "different" }), input.clone()));
+        }
+        Ok(Some(ab))
+    })
+    .map_err(|p| Failure::new(p, input.clone()).with_sig("panic"))?;
+    match r {
+        None => ctx.class("group pair: a term was rejected (skipped)"),
+        Some(Err(f)) => return Err(f),
+        Some(Ok(None)) => ctx.inconclusive("reference normalisation ran out of fuel"),
+        Some(Ok(Some(equal))) => {
+            ctx.class(&format!("(c,d) groups differing by one definition: judged {}", if equal { "equal" } else { "unequal" }));
+            ctx.nontrivial(&input);
+        }
+    }
+    Ok(())
+}
+
 pub fn def(tier: Tier) -> CheckDef {
-    let rounds = tier.pick(5, 80);
+    let rounds = tier.pick(25, 250);
     CheckDef {
         id: "C06",
         level: "exploration",
-        rule: "(a) closed type-directed generated programs of type int / bool whose evaluation ends in a literal (by the reference interpreter): normalize_weak_head of the elaborated term must be the literal gram's `step` loop reaches; (b) closed accepted programs t: unify(t, t) and, in both argument orders, unify(t, t') for terms t' of t's own `step` sequence (first 50 steps, sampled) and for reference reducts obtained by 1-3 contractions (beta, arithmetic / comparison on literals, if on a literal) at random positions, also under binders; (c, d) ordered pairs of closed hole-free well-typed terms of the same generated type (int, bool, function and type-level types; second term = a reduct of the first, the first with one literal changed, or an independent term): unify(a, b) = unify(b, a) = equality of normal forms computed by NbE on the elaborated terms (lambda annotations ignored); non-trivial = (a) >= 5 steps, (b) at least one reduct compared, (c, d) the two texts differ; both verdicts occur (the evidence reports the equal / unequal split); distinct by text",
+        rule: "(a) closed type-directed generated programs of type int / bool whose evaluation ends in a literal (by the reference interpreter): normalize_weak_head of the elaborated term must be the literal gram's `step` loop reaches; (b) closed accepted programs t: unify(t, t) and, in both argument orders, unify(t, t') for terms t' of t's own `step` sequence (first 50 steps, sampled) and for reference reducts obtained by 1-3 contractions (beta, arithmetic / comparison on literals, if on a literal) at random positions, also under binders; (c, d) ordered pairs of closed hole-free well-typed terms of the same generated type (int, bool, function and type-level types; second term = a reduct of the first, the first with one literal changed, or an independent term; and definition groups that differ by one appended or changed definition, bare, under a neutral head and under binders; and, exhaustively, every pair of same-former bodies `a OP c`, `- a`, `if b then a else c`, `f a c` over operands {x, y, 1, 2} under four binders): unify(a, b) = unify(b, a) = equality of normal forms computed by NbE on the elaborated terms (lambda annotations ignored); non-trivial = (a) >= 5 steps, (b) at least one reduct compared, (c, d) the two texts differ; both verdicts occur (the evidence reports the equal / unequal split); distinct by text",
         assumptions: vec![
             "pairs involving recursive definitions are excluded from (c, d): comparing two different recursive functions unfolds forever in any implementation without fuel",
             "fuel exhaustion of the reference and aborts / hangs of gram on divergent terms are inconclusive",
@@ -321,6 +472,21 @@ pub fn def(tier: Tier) -> CheckDef {
                 run: Box::new(|ctx, r| ctx.prop("reduction", r, 300, 600, reduction_case)),
                 replay: Some(Box::new(|ctx, inp| match inp {
                     ReplayInput::Choices(c) => reduction_case(ctx, &mut Ch::new(c)),
+                    _ => Err(Failure::new("this part replays from choices", "")),
+                })),
+            },
+            Part {
+                name: "operand-pairs",
+                rounds: 1,
+                run: Box::new(|ctx, _| operand_pairs(ctx)),
+                replay: None,
+            },
+            Part {
+                name: "group-pairs",
+                rounds: tier.pick(5, 50),
+                run: Box::new(|ctx, r| ctx.prop("group-pairs", r, 400, 60, group_pair_case)),
+                replay: Some(Box::new(|ctx, inp| match inp {
+                    ReplayInput::Choices(c) => group_pair_case(ctx, &mut Ch::new(c)),
                     _ => Err(Failure::new("this part replays from choices", "")),
                 })),
             },
